@@ -12,6 +12,94 @@ EXPLANATION = (
     "only under a test that it lies before END. Not decided: termination of the fix-point loops, exact tiling, code-map containment "
     "(data-dependent).")
 
+def tiling_rule(ctx, repo):
+    """C14.4 / C14.5: the control-file generator folded on model memory images."""
+    import random
+    from sa.core.classfold import ClassFolder
+    from sa.core.pyfacts import NotLiteral
+    cf = ClassFolder(repo, 'snactl')
+    rnd = random.Random(1405 + ctx.seed)
+    n_img = 400 if ctx.tier == 'thorough' else 90
+    class Cfg:
+        _sa_fold_ok = True
+    ALPHA = [0x00, 0x00, 0x01, 0x3E, 0x21, 0xC9, 0x18, 0xC3, 0xCD, 0x10, 0x41, 0x42, 0x53, 0x20, 0x65, 0x74, 0x7E, 0xAF, 0xDD, 0xED, 0xB0, 0xFF, 0xE9, 0xCB]
+    ctx.rule('C14.4-tiling', 'control directives generated without a code map (folded on model images) start at START, end with the terminator at END, stay inside [START, END] and keep the terminator', floor=60)
+    where = 'skoolkit/snactl.py (_generate_ctls_without_code_map)'
+    for k in range(n_img):
+        start = rnd.choice((30000, 40000, 65500, 16384))
+        ln = rnd.randrange(1, 40)
+        end = min(65536, start + ln)
+        snap = [0] * 65536
+        style = k % 4
+        for a in range(start - 4, min(65536, end + 4)):
+            if style == 0:
+                snap[a] = rnd.choice(ALPHA)
+            elif style == 1:
+                snap[a] = rnd.choice((0x41, 0x42, 0x63, 0x20, 0x18, 0xC9, 0xC3, 0x65))
+            elif style == 2:
+                snap[a] = rnd.choice((0, 0, 0, 0xC9, 0x41))
+            else:
+                snap[a] = rnd.randrange(256)
+        cfg = Cfg()
+        cfg.text_chars = ''.join(chr(c) for c in range(32, 127))
+        cfg.text_min_length_code = rnd.choice((1, 2, 3, 12))
+        cfg.text_min_length_data = rnd.choice((1, 3, 8))
+        cfg.words = ()
+        name = 'image %d (style %d, %d..%d, min text %d/%d)' % (k, style, start, end, cfg.text_min_length_code, cfg.text_min_length_data)
+        try:
+            ctls = cf.call_func('snactl', '_generate_ctls_without_code_map', [snap, start, end, cfg, None])
+        except NotLiteral as e:
+            ctx.limit('tiling', 'generator not foldable: %s' % e)
+            break
+        except (KeyError, IndexError, ValueError, TypeError, AttributeError) as e:
+            ctx.violation('no-code-map generator', where, 'fails with %s: %s on bytes %s (%s)' % (type(e).__name__, e, snap[start:end], name))
+            continue
+        keys = sorted(ctls)
+        problems = []
+        if not keys or keys[0] != start:
+            problems.append('first directive at %s, not at START %d' % (keys[:1], start))
+        if ctls.get(end) != 'i':
+            problems.append('no terminating `i` directive at END %d (directive there: %r)' % (end, ctls.get(end)))
+        if any(a < start or a > end for a in keys):
+            problems.append('directive outside [START, END]: %s' % [a for a in keys if a < start or a > end][:3])
+        if any(ctls[a] == 'i' for a in keys if a != end):
+            problems.append('terminator inside the range')
+        if any(ctls[a] not in ('b', 'c', 's', 't', 'w', 'i') for a in keys):
+            problems.append('unknown directive %r' % [ctls[a] for a in keys if ctls[a] not in 'bcstwi'][:1])
+        if problems:
+            ctx.violation('no-code-map generator', where, '%s for bytes %s at %d..%d with TextMinLengthCode=%d, TextMinLengthData=%d: generated %s' %
+                          ('; '.join(problems), snap[start:end], start, end, cfg.text_min_length_code, cfg.text_min_length_data, [(a, ctls[a]) for a in keys]))
+        else:
+            ctx.ok({'image': name, 'directives': len(keys)})
+    ctx.rule('C14.5-extension', 'extending a code block to its terminal instruction (_find_terminal_instruction, folded) leaves the type of every byte after the extension unchanged: executed code stays code', floor=60)
+    where = 'skoolkit/snactl.py (_find_terminal_instruction)'
+    for k in range(n_img):
+        start, end = 40000, 40000 + rnd.randrange(6, 40)
+        snap = [0] * 65536
+        for a in range(start, end + 4):
+            snap[a] = rnd.choice((0x00, 0x01, 0x01, 0x3E, 0x21, 0xAF, 0x47, 0xC9, 0x18, 0xC3, 0x06, 0x11))
+        ctls = {start: 'U', end: 'i'}
+        for _ in range(rnd.randrange(1, 5)):
+            a = rnd.randrange(start + 1, end)
+            ctls[a] = rnd.choice(('c', 'c', 'U'))
+        before = dict(ctls)
+        def typ(d, x):
+            return d[max(a for a in d if a <= x)]
+        try:
+            ret = cf.call_func('snactl', '_find_terminal_instruction', [snap, ctls, start, end, None])
+        except NotLiteral as e:
+            ctx.limit('extension', '_find_terminal_instruction not foldable: %s' % e)
+            break
+        except (KeyError, IndexError, ValueError, TypeError, AttributeError, NameError) as e:
+            ctx.violation('_find_terminal_instruction', where, 'fails with %s: %s on bytes %s, markers %s' % (type(e).__name__, e, snap[start:end], sorted(before.items())))
+            continue
+        bad = [x for x in range(ret, end) if typ(before, x) != typ(ctls, x)]
+        if bad:
+            ctx.violation('_find_terminal_instruction', where, 'bytes %s with markers %s: the scan from %d returns %d and leaves markers %s; address %d was `%s` and is now `%s` though it lies after the extension' %
+                          (snap[start:end], sorted(before.items()), start, ret, sorted(ctls.items()), bad[0], typ(before, bad[0]), typ(ctls, bad[0])))
+        else:
+            ctx.ok({'case': k, 'returned': ret})
+
 def run(ctx):
     repo = pyfacts.Repo(ctx.repo_root)
     dis = tabfacts.DisTables(repo)
@@ -107,6 +195,7 @@ def run(ctx):
         visit(fn.body, [], fname)
     if n_sites < 1:
         raise FactError('skoolkit/snactl.py: no computed-address marker site found')
+    tiling_rule(ctx, repo)
     from sa.rules import memo
     memo.run_for(ctx, repo, 'C14')
     return report.finish(ctx, EXPLANATION)
